@@ -51,7 +51,8 @@ class Parser:
         """Converts a given python file to an ast module and its name."""
         absolute_path = path.resolve()
         if self._file_should_be_parsed(absolute_path):
-            with open(absolute_path) as file:
+            # read as bytes: ast.parse then honours a byte order mark and an encoding declaration, as the interpreter does
+            with open(absolute_path, "rb") as file:
                 code = file.read()
 
             module_name = self._get_module_name(path)
